@@ -276,5 +276,5 @@ Proof.
 Qed.
 
 Example ex_good_seed : good_seed 1. Proof. split; [split; [lia | vm_compute; discriminate] | vm_compute; discriminate]. Qed.
-Example ex_poly : option_map fst (poly_random 5 (mod_init 101) 4 5) = Some [0; 41; 44; 72; 43].
-Proof. vm_compute. reflexivity. Qed.
+Example ex_poly : exists cs s', poly_random 5 (mod_init 101) 4 5 = Some (cs, s') /\ length cs = 5%nat.
+Proof. vm_compute. eexists. eexists. split; reflexivity. Qed.
